@@ -39,7 +39,7 @@ from pysmt.environment import Environment, push_env, pop_env
 from ..core import termio
 from ..core.refsem import (compile_term, free_symbols, Unconstrained, IllTyped, Unsupported)
 from ..core.termgen import Profile, interps, sort_values
-from ..core.termio import INT, BOOL
+from ..core.termio import INT, BOOL, mk_type
 from ..core.sig import kind as node_kind, subterms_postorder
 from ..core.sweep import sweep
 
@@ -638,7 +638,7 @@ def ack_verdict(env, f, cfg, cmemo, info=None, warm=None):
                     p = tuple(sort_values(s))
                 else:
                     p = tuple(sorted(set(rng.get(s, ())) | appvals.get(s, set())
-                                     | set(sort_values(s, cfg["sym"]))))
+                                     | set(sort_values(s, cfg["sym"])), key=repr))
                 pools.append(p)
                 size *= len(p)
             if size > ACK_SEARCH_CAP:
@@ -1191,6 +1191,19 @@ def ack_profile(variant):
             p.op("ite", [BOOL, INT, INT], INT, lambda m, c, s, t: m.Ite(c, s, t))
             p.op("eq", [INT, INT], BOOL, EQ)
             p.op("p", [INT, INT], BOOL, PR)
+        elif variant == "arr":
+            # applications inside array literals (default element and stored value), stores and reads
+            AR = ("Array", INT, INT)
+            arr = p.sym("A", AR)
+            it = mk_type(env, INT)
+            p.leaf(INT, x, y)
+            p.leaf(AR, arr)
+            p.op("f", [INT], INT, F)
+            p.op("konst", [INT], AR, lambda m, t: m.Array(it, t))
+            p.op("lit", [INT, INT], AR, lambda m, d, v: m.Array(it, d, {one: v}))
+            p.op("store", [AR, INT, INT], AR, lambda m, a, i, v: m.Store(a, i, v))
+            p.op("select", [AR, INT], INT, lambda m, a, i: m.Select(a, i))
+            p.op("eq", [INT, INT], BOOL, EQ)
         elif variant == "bv":
             # finite sorts: every assignment of the fresh constants is enumerated exactly
             u, v = p.sym("u", B1), p.sym("v", B1)
@@ -1281,6 +1294,10 @@ def parts(ctx):
     ack("ack-boolarg-d3", "boolarg", 3, 16, top_ops=_names("eq", "r", "and"), max_new=1 if q else None)
     ack("ack-ite-d3", "ite", 3, 16, mid_ops=_names("f", "g", "ite"), top_ops=_names("eq", "p"),
         max_new=1 if q else None)
+    ack("ack-arr-d4", "arr", 4, 16, mid_ops=_names("f", "konst", "select") if q else _names("f", "konst", "lit", "select", "store"),
+        top_ops=_names("eq"), max_new=1)
+    if not q:
+        ack("ack-arr-lit-d4", "arr", 4, 64, mid_ops=_names("f", "lit", "select"), top_ops=_names("eq"), max_new=1)
     ack("ack-bv-d3", "bv", 4, 16, mid_ops=_names("fb", "bvnot"), top_ops=_names("bveq", "qb"))
     return ps
 
